@@ -120,6 +120,23 @@ def hashDiffClass (a b : List Char) : String :=
       if hnorm va == hnorm vb && (ha != hnorm va || hb != hnorm vb) then "implicit-scan" else "unclassified"
     | _, _ => "unclassified"
 
+/-- The events of a text without the brace events the comparator may skip. -/
+def leaves (inp : List Char) : List Event :=
+  (events inp).1.filter fun e => !(e.beq .startBody || e.beq .endRecord)
+
+def evsSame : List Event → List Event → Bool
+  | [], [] => true
+  | e :: a, f :: b => e.beq f && evsSame a b
+  | _, _ => false
+
+/-- Why two texts of different values compare equal (classified on the model; narrow on purpose):
+`same-leaves` — the two event streams differ only in where `StartBody`/`EndRecord` stand: the comparator skips braces
+  wherever the streams disagree and its size bookkeeping (`ValueType::len` is additive) cannot tell `{{1,1}}` from
+  `{1,{1}}` (finding C15-N3);
+anything else is `other`. -/
+def mergeClass (a b : List Char) : String :=
+  if evsSame (leaves a) (leaves b) then "same-leaves" else "other"
+
 /-- The property on one `pair` line, from the implementation's answers alone. -/
 def pairVerdict (ha hb : String) (out : String) : Option String :=
   if out == "out-of-fragment" then none else
@@ -133,7 +150,13 @@ def pairVerdict (ha hb : String) (out : String) : Option String :=
         some "malformed-output"
       else if cmp != rcmp then some "cmp-asymmetric"
       else if cmp != expected then
-        some (if valid then (if cmp == "1" then "merged-distinct-values" else "split-equal-values")
+        some (if valid then
+                (if cmp == "1" then
+                  "merged-distinct-values:" ++
+                    (match charsOfHex ha, charsOfHex hb with
+                     | some a, some b => mergeClass a b
+                     | _, _ => "other")
+                 else "split-equal-values")
               else "invalid-not-string-eq")
       else if cmp == "1" && heq == "0" then
         some ("eq-hash-differs:" ++
